@@ -318,7 +318,7 @@ def check_decorator(ctx, chk):
     Kx = Sym("classes", ("attr", "array", "notnone"))
     OV = Sym("OVA", ("attr", "array", "notnone"))
     decorated = [m for m in cmcls.methods.values() if any(d.startswith("cm_class_metric") for d in m.decorators)]
-    if len(decorated) < 34:
+    if len(decorated) + len([n_ for n_, v_, _a in getattr(cmcls, "assigns", []) if n_ in CM_METHODS and n_ not in cmcls.methods]) < 34:
         chk.unknown("R05.4", "only %d decorated ConfusionMatrix methods found (floor 34)" % len(decorated))
 
     def stub(ev_, fi, bound):
@@ -326,7 +326,8 @@ def check_decorator(ctx, chk):
         o.attrs.update(matrix=OV, binary=Const(True), classes=Sym("ova_classes"))
         return o
 
-    for meth in sorted(m.name for m in decorated):
+    generated = [n_ for n_, v_, _a in getattr(cmcls, "assigns", []) if n_ in CM_METHODS and n_ not in cmcls.methods]     # aliases bound by class-level assignment
+    for meth in sorted([m.name for m in decorated] + generated):
         fn = CM_METHODS.get(meth)
         if fn is None:
             chk.unknown("R05.4", "decorated method %s has no tabled metric" % meth)
